@@ -89,7 +89,6 @@ def is_num(x):
 
 class Sym:
     __slots__ = ("n",)
-    __array_priority__ = 1000
 
     def __init__(self, n):
         self.n = n
